@@ -16,7 +16,8 @@ HAYSTACKS = [
     None, True, False, 0, 1, 2, -1, 10, 300, 0.5, 1.5, -3.75, 2.25, 1.0,
     "a", "b", "ab", "abc", "A", "", "1", "2", "10", "01", "1.5", "1.50",
     "true", "True", "TRUE", "false", "null", "None", "0x10", "1_0", "(1,)",
-    "[1]", "{[1]:2}", "a b", "1e3", "été",
+    "[1]", "{[1]:2}", "a b", "1e3", "été", "1.5-", "10-", "1.", "tru",
+    "True-", "0-",
 ]
 NEEDLES = [
     "a", "b", "ab", "abc", "A", "", "1", "2", "10", "01", "-1", "0", "1.5",
